@@ -88,7 +88,7 @@ Definition check (c : c20case) : verdict :=
                      | Some f => cols_in_keys (f_keys f) g && forallb (forallb (in_keys (f_keys f))) (f_ar f) end)
                || opt_eqb arrays_eqb (combinations g n ms2 cf kf tf) ic
                || opt_eqb arrays_eqb (combinations_with chord_filter_rows g n ms2 cf kf tf) ic,   (* repaired variant *)
-               (1 <=? size) && wf_combos g n cf kf tf,
+               (2 <=? size) && wf_combos g n cf kf tf,
                match ic with Some o => combos_specb g n ms2 cf kf tf o | None => false end)
           | RJacks minlen keys =>
               (negb (cols_in_keys keys g) || opt_eqb arrays_eqb (template_jacks g minlen keys) ic,
